@@ -68,11 +68,19 @@ PROPS = {
                 text="A step-by-step reference SOCKS5 client (IPv4 / IPv6 incl. v4-mapped / domains of 1..255 arbitrary bytes, any port, argument maps with escaped ';' '=' '\\', 8-bit bytes, repeated keys, every username/password spill point) under all segmentations with pauses inside the 5 s budget, plus 19 malformed variants (bad versions, nmethods 0, no acceptable method, bad auth version, ulen/plen 0, bad escapes, empty key, key without value, trailing ';', unknown atyp, zero-length domain, BIND/UDP, non-zero RSV, pipelined trailing bytes, truncation, silence > 5 s); oracle: exact Target/Args for conforming exchanges, error plus (nothing | the stage's RFC failure reply) for malformed ones, deadline enforced and disarmed.",
                 note="Trusted: simulator, the strict pt-spec argument encoder in the harness. IPv6 targets are compared as addresses (net.IP.Equal), domain targets byte for byte.",
                 technique=TECH + "reference client under seeded segmentation and malformed-message injection on a virtual clock"),
+    "C18": dict(engine="disk", quick=30, thorough=600, level="fault_enumeration", design="DESIGN.md section 4, C18",
+                text="For tape-generated start-up histories (plain / iat-mode override / explicit identity) the next start is interrupted at EVERY disk step (kill, EIO, ENOSPC; for write steps with torn sizes 0, 1, len/2, len-1, len and a sampled one), then a plain start must succeed and present the durable identity (or the one the interrupted start was given); identity compared through Args(), the reference's reading of the advertised cert, client ParseArgs of both bridge-line forms and obfs4_bridgeline.txt.",
+                note="Kill model: completed disk steps persist, the step in progress persists a prefix (no loss of completed-but-unsynced writes). Trusted: simulator, simos disk model, the weave import shim (os -> simos in statefile.go and handshake_ticket.go).",
+                technique=TECH + "crash/error enumeration over every disk step of generated start-up histories with an identity-persistence model"),
 }
 
 ENGINES = {
-    # name -> dict(dir under harness/, woven packages, inject map)
-    "wire": dict(src="wire", pkg="zz_verif/wire", woven=False),
+    # name -> dict(src: dir under harness/, pkg: (virtual) package dir inside the repo module, weave: file specs for /verif/weave)
+    "wire": dict(src="wire", pkg="zz_verif/wire"),
+    "disk": dict(src="disk", pkg="zz_verif/disk", weave=[
+        dict(path="transports/obfs4/statefile.go", os=True),
+        dict(path="transports/scramblesuit/handshake_ticket.go", os=True),
+    ]),
 }
 
 
@@ -112,15 +120,50 @@ def gen_modfile(bd):
     return mod
 
 
+def rt_overlay():
+    goroot = subprocess.run([GO, "env", "GOROOT"], env=GOENV, stdout=subprocess.PIPE, text=True).stdout.strip()
+    r = run([sys.executable, os.path.join(VERIF, "rtpatch", "patch.py"), goroot, os.path.join(BUILD, "rt")],
+            stdout=subprocess.PIPE, text=True)
+    if r.returncode != 0:
+        die("runtime seam patch failed")
+    return json.loads(r.stdout)
+
+
+def build_weave():
+    out = os.path.join(BUILD, "weave")
+    src = os.path.join(VERIF, "weave", "main.go")
+    if os.path.exists(out) and os.path.getmtime(out) >= os.path.getmtime(src):
+        return out
+    os.makedirs(BUILD, exist_ok=True)
+    r = run([GO, "build", "-o", out, "."], cwd=os.path.join(VERIF, "weave"), env=GOENV, stdout=subprocess.PIPE, stderr=subprocess.STDOUT, text=True)
+    if r.returncode != 0:
+        print(r.stdout)
+        die("cannot build the weave tool")
+    return out
+
+
+def run_weave(bd, engine, specs):
+    tool = build_weave()
+    outdir = os.path.join(bd, "woven-" + engine)
+    os.makedirs(outdir, exist_ok=True)
+    specfile = os.path.join(outdir, "spec.json")
+    open(specfile, "w").write(json.dumps(specs))
+    r = run([tool, "-repo", REPO, "-out", outdir, "-spec", specfile], stdout=subprocess.PIPE, stderr=subprocess.STDOUT, text=True)
+    if r.returncode != 0:
+        print(r.stdout)
+        die("weave failed for engine %s" % engine)
+    return json.load(open(os.path.join(outdir, "weave.json")))["replace"]
+
+
 def gen_overlay(bd, engine):
     e = ENGINES[engine]
-    rep = {}
+    rep = dict(rt_overlay())
     srcdir = os.path.join(VERIF, "harness", e["src"])
     for f in sorted(os.listdir(srcdir)):
         if f.endswith(".go"):
             rep[os.path.join(REPO, e["pkg"], f)] = os.path.join(srcdir, f)
-    for extra in e.get("overlay", []):
-        extra(bd, rep)
+    if e.get("weave"):
+        rep.update(run_weave(bd, engine, e["weave"]))
     path = os.path.join(bd, "overlay-%s.json" % engine)
     open(path, "w").write(json.dumps({"Replace": rep}, indent=1))
     return path
@@ -190,12 +233,12 @@ def check(prop, tier, seed):
 
 
 def finish(prop, tier, seed, cfg, reports, trouble, wall, build_s):
-    agg = dict(runs=0, reached=0, nontrivial=0, steps=0, vtime_ns=0, leaks=0)
+    agg = dict(runs=0, evals=0, reached=0, nontrivial=0, steps=0, vtime_ns=0, leaks=0)
     counters, features, strategies = {}, {}, {}
     hashes, nth = set(), set()
     samples, violations, known, herrs = [], [], [], []
     for r in reports:
-        for k in ("runs", "reached", "nontrivial", "steps", "vtime_ns", "leaks"):
+        for k in ("runs", "evals", "reached", "nontrivial", "steps", "vtime_ns", "leaks"):
             agg[k] += r.get(k) or 0
         for src, dst in ((r.get("counters"), counters), (r.get("features"), features), (r.get("strategies"), strategies)):
             for k, v in (src or {}).items():
@@ -224,7 +267,8 @@ def finish(prop, tier, seed, cfg, reports, trouble, wall, build_s):
     ev = dict(
         property_id=prop, tier=tier, seed=seed, level=cfg["level"],
         coverage=dict(
-            evaluations=agg["runs"],
+            evaluations=max(agg["evals"], agg["runs"]),
+            simulated_runs=agg["runs"],
             distinct_nontrivial=len(nth),
             rule=RULES.get(prop, "one evaluation = one simulated run (one tape); distinct = distinct event-log hashes; non-trivial = reached the property's target phase with a split/coalesce/fault/interleaving landing inside in-flight state"),
             samples=samples[:3],
@@ -369,6 +413,7 @@ NOT_APPLICABLE = {
     "C20": "Log scrubbing is a pure function of an error value or address string; nothing in it depends on scheduling, time, I/O or faults.",
 }
 ENGINE_KIND = {
+    "disk": "B2 (import shim only): statefile.go and handshake_ticket.go compiled with os -> verifsim/simos (in-memory disk with kill/torn-write/EIO/ENOSPC injection at every step); everything else as B1",
     "wire": "B1: unmodified repository packages inside a testing/synctest bubble on the simulated network/clock/entropy; park-release scheduler driven by a seeded choice tape",
 }
 
